@@ -12,6 +12,10 @@ it emits every (ratios, n0, limit, query level).  Each is replayed on a properly
                         a point outside the domain is refused
   what = "grid"  (C10)  whip's uniform grid is the covering grid at the scenario's limit (a level's cells are Fac(l) per level-0 cell)
   what = "plate" (C08)  mandoline's 2-D flattening is the covering grid at the scenario's limit
+  what = "slice" (C07)  mandoline's 3-D slice at the scenario's limit: a field affine along the normal is reproduced exactly at every
+                        pixel (positions between the outermost level-0 cell centres), a field constant along the normal shows, at
+                        every pixel, the value of a level that has a box over that pixel, grid_level is such a level; beyond the
+                        refined region the slice is the level-0 data
   what = "integral" (C09)  pestle's volume integral up to the scenario's limit is the sum over the covering grid (hierarchies on an
                         EVEN blocking factor: every box corner is even)
 """
@@ -71,7 +75,7 @@ def nested_ap(sc, ndims, split, rng, even=False):
             "ratios": rs}
 
 
-def write(chk, sc, cfgseed, ndims, split, even=False):
+def write(chk, sc, cfgseed, ndims, split, even=False, values=None):
     rng = random.Random(cfgseed)
     cfg_ = gamma.Config.draw(rng, ndims=ndims, payload="tame")
     cfg_.ratios = tuple(sc["ratios"])
@@ -79,11 +83,13 @@ def write(chk, sc, cfgseed, ndims, split, even=False):
     ap["time"] = cfg_.time if cfg_.time is not None else 0.5
     d = os.path.join(chk.tmp_reuse(), "p")
     os.makedirs(os.path.dirname(d))
-    reg = gamma.write_plotfile(d, ap, cfg_)
+    reg = gamma.write_plotfile(d, ap, cfg_, values=values(ap, cfg_) if values else None)
     return d, ap, cfg_, reg
 
 
 def run_one(chk, sc, cfgseed, what):
+    if what == "slice":
+        return slice3d(chk, sc, cfgseed)
     ndims = 3 if what in ("point", "grid", "integral") else (2 if what == "plate" or cfgseed % 3 == 0 else 3)
     d, ap, cfg_, reg = write(chk, sc, cfgseed, ndims, split=(what != "point" and cfgseed % 2 == 0), even=(what == "integral"))
     before = alpha.tree_digest(d)
@@ -294,6 +300,106 @@ def cover(chk, ds, d, ap, cfg_, reg, sc, cfgseed, what):
     return None
 
 
+def slice3d(chk, sc, cfgseed):
+    from amr_kitchen.mandoline import Mandoline
+    rs = list(sc["ratios"])
+    lim = sc["lim"]
+    cn = cfgseed % 3
+    cx, cy = [a for a in range(3) if a != cn]
+    base = {}
+
+    def values(ap, cfg_):
+        def level_shape(lv):
+            return [n * gamma.rfac(cfg_, lv) for n in ap["dom"]]
+
+        def val(lv, b, fi, box):
+            shape = gamma.box_shape(box)
+            if fi == 1:
+                return gamma.token_array(cfgseed, ("u", lv, b), int(np.prod(shape)), "tame").reshape(shape, order="F")
+            sl = tuple(slice(a, h + 1) for a, h in zip(box["lo"], box["hi"]))
+            if fi == 2:
+                dx = gamma.level_dx(cfg_, 3, lv)[cn]
+                coord = cfg_.origin[cn] + dx * (np.arange(level_shape(lv)[cn]) + 0.5)
+                sh = [1, 1, 1]
+                sh[cn] = -1
+                return np.broadcast_to((3.0 * coord - 2.0).reshape(sh), level_shape(lv))[sl]
+            if lv not in base:
+                full = np.random.default_rng(cfgseed * 7 + lv).uniform(-1000.0, 1000.0, level_shape(lv))
+                first = [slice(None)] * 3
+                first[cn] = slice(0, 1)
+                base[lv] = np.broadcast_to(full[tuple(first)], level_shape(lv)).copy()
+            return base[lv][sl]
+        return val
+    d, ap, cfg_, reg = write(chk, sc, cfgseed, 3, split=False, values=values)
+    ds = spell.of(d, cfgseed)[0]
+    before = alpha.tree_digest(d)
+    R = [gamma.rfac(cfg_, l) for l in range(lim + 1)]
+    glo, ghi = gamma.geo(ap, cfg_)
+    dx0 = gamma.level_dx(cfg_, 3, 0)[cn]
+    dxL = gamma.level_dx(cfg_, 3, lim)[cn]
+    rng = random.Random(cfgseed + 3)
+    # positions between the outermost level-0 cell centres: inside the refined corner, on a cell centre / a cell face of the
+    # limit level, and beyond every refined box along the normal (the level-1 box ends two level-0 cells from the lower face)
+    cands = [glo[cn] + dx0 * 0.75, glo[cn] + dxL * (R[lim] + 0.5), glo[cn] + dxL * (R[lim] + 1), glo[cn] + dx0 * rng.uniform(0.6, 1.9),
+             glo[cn] + dx0 * rng.uniform(3.1, ap["dom"][cn] - 0.6)]
+    shape = [n * R[lim] for n in ap["dom"]]
+    v = None
+    for pos in cands:
+        try:
+            with shims.pool_shim(shims.Scheduler(default="random", rng=rng)), shims.poison(1.2345e300), core.quiet():
+                out = Mandoline(ds, fields=["v", "w", "grid_level"], limit_level=lim, serial=bool(cfgseed % 2), verbose=0).slice(
+                    normal=cn, pos=pos, fformat="return")
+        except Exception as e:
+            v = "slice(normal=%d, pos=%r, limit %d) raised %s: %s" % (cn, pos, lim, type(e).__name__, str(e)[:160])
+            break
+        far = pos > glo[cn] + 3.0 * dx0
+        # within a (coarser) cell of the upper face of a refined box along the normal the two bracketing samples may belong to
+        # different levels: a field that is constant along the normal only level by level is then a blend -- not judged there
+        near = any(abs(pos - (glo[cn] + 2.0 * gamma.level_dx(cfg_, 3, l - 1)[cn])) <= gamma.level_dx(cfg_, 3, l - 1)[cn] for l in range(1, lim + 1))
+        for name in ("v", "grid_level") if near else ("v", "w", "grid_level"):
+            arr = np.asarray(out[name])
+            if arr.shape != (shape[cy], shape[cx]):
+                v = "slice of %r has shape %r, the level-%d plane grid is %r" % (name, arr.shape, lim, (shape[cy], shape[cx]))
+                break
+            for i in range(shape[cx]):
+                for j in range(shape[cy]):
+                    got = float(arr[j, i])
+                    if name == "v":
+                        want = 3.0 * pos - 2.0
+                        ok = abs(got - want) <= 1e-9 * max(1.0, abs(want))
+                        why = "a field affine along the normal gives %r there" % want
+                    else:
+                        # levels that have a box over the pixel (the box of level l covers the first 2 * ratio cells of its level)
+                        levs = [l for l in range(lim + 1) if l == 0 or (i * R[l] // R[lim] < 2 * rs[l - 1] and j * R[l] // R[lim] < 2 * rs[l - 1])]
+                        if far:
+                            levs = [0]
+                        if name == "grid_level":
+                            ok = got in [float(l) for l in levs]
+                            why = "levels with a box over that pixel%s: %r" % (" crossed by the plane" if far else "", levs)
+                        else:
+                            wants = []
+                            for l in levs:
+                                q = [0, 0, 0]
+                                q[cx], q[cy] = i * R[l] // R[lim], j * R[l] // R[lim]
+                                wants.append(float(base[l][tuple(q)]))
+                            ok = any(abs(got - w_) <= 1e-9 * max(1.0, abs(w_)) for w_ in wants)
+                            why = "a field constant along the normal holds %r in the levels over that pixel" % wants
+                    if not ok:
+                        v = "slice(normal=%d, pos=%r, limit %d): pixel (%d, %d) of %r is %r; %s" % (cn, pos, lim, i, j, name, got, why)
+                        break
+                if v:
+                    break
+            if v:
+                break
+        if v:
+            break
+    if v is None and alpha.tree_digest(d) != before:
+        v = "the plotfile was modified"
+    if v:
+        v = "refinement ratios %r (%d levels, 3D): %s" % (rs, len(rs) + 1, v)
+    return v
+
+
 def integral(ds, ap, cfg_, reg, sc, cfgseed):
     from amr_kitchen import PlotfileCooker
     from amr_kitchen.pestle import volume_integral
@@ -326,8 +432,8 @@ def phase(chk, what):
     scs = r.emitted
     if what == "point":
         scs = [s for s in scs if s["lim"] == len(s["ratios"])]
-    elif what in ("grid", "plate", "integral"):
-        scs = [s for s in scs if s["ql"] == 0 and s["n0"] == 4]
+    elif what in ("grid", "plate", "integral", "slice"):
+        scs = [s for s in scs if s["ql"] == 0 and s["n0"] == (5 if what == "slice" else 4)]
     else:
         scs = [s for s in scs if s["ql"] == 0]
     cap = 80 if chk.tier == "quick" else 600
